@@ -27,7 +27,13 @@ EXTRACT = '''From Coq Require Import Extraction ExtrOcamlBasic.
 Require Import Num C08_Model.
 Extraction "c08model.ml" kkt_dyn_residual kkt_con_residual constraint_power disabled_after mask_after.
 '''
-TOL = 1e-8          # relative to the size of the terms of each equation (the pseudo-inverse solve loses a few digits on redundant sets)
+TOL = 1e-8          # power / force / matrix predicates: relative to the size of the terms
+# Residuals of the two equation blocks: the multiplier solve factors W = G M^-1 G^T (FactorQTZ, rcond = m*Eps^(3/4)), so the computed
+# lambda and hence udot carry a relative error of order cond(W)*eps.  cond(W) is MEASURED per case by the probe (singular values of
+# calcProjectedMInv, largest over smallest kept by that cut) and the tolerance is  (TOL_FLOOR + C_COND*eps*cond) * (size of the terms),
+# the size of the terms being || |G| |udot| || + ||b||  resp.  || |M| |udot| || + || |G^T| |lambda| || + ||rhs||  (backward-error scale).
+# Cases with cond above COND_MAX are counted as "ill-conditioned, residuals not judged" (flags and per-constraint identities still are).
+TOL_FLOOR, C_COND, EPS, COND_MAX = 1e-9, 20.0, 2.220446049250313e-16, 1e10
 CONSIST = 1e-9      # a case is judged only if its enabled acceleration equations are consistent to this (least squares)
 
 FLAGCASES = []
@@ -44,7 +50,8 @@ def parse(out):
         if t[0] == 'CASE':
             FLAGCASES.append({'id': t[1], 'flags': flags, 'mismatch': False, 'line': line}); flags = []
             cur = {'id': t[1], 'onman': int(t[3]), 'nu': int(t[5]), 'mAll': int(t[7]), 'mA': int(t[9]), 'rank': int(t[11]), 'consistency': float(t[13]),
-                   'workless': int(t[15]), 'nspecs': int(t[17]), 'kinds': t[19:], 'head': line, 'M': [], 'G': [], 'mask': [], 'out': {}, 'pcon': []}
+                   'workless': int(t[15]), 'nspecs': int(t[17]), 'cond': float(t[t.index('cond') + 1]), 'dropped': float(t[t.index('dropped') + 1]),
+                   'kinds': t[t.index('kinds') + 1:], 'head': line, 'M': [], 'G': [], 'mask': [], 'out': {}, 'pcon': []}
         elif t[0] == 'SKIP': skipped += 1; cur = None
         elif cur is None: continue
         elif t[0] == 'END': cases.append(cur); cur = None
@@ -71,12 +78,17 @@ def judge(c, model):
     Mu = matvec(c['M'], c['UDOT']); lam = [l if m else 0.0 for l, m in zip(c['LAMFULL'], c['mask'])]
     Gtl = [sum(c['G'][k][i] * lam[k] for k in range(c['mAll'])) for i in range(n)]
     sc_dyn = 1.0 + norm(Mu) + norm(Gtl) + norm(c['RHS'])
-    Gu = matvec(c['G'], c['UDOT']); sc_con = 1.0 + norm([g for g, m in zip(Gu, c['mask']) if m]) + norm([b for b, m in zip(c['B'], c['mask']) if m])
-    if norm(model['DYN']) > TOL * sc_dyn: bad.append(('newton-residual(model: M udot + G^T lambda - rhs)', norm(model['DYN']), sc_dyn))
-    if norm(model['CON']) > TOL * sc_con: bad.append(('constraint-residual(model: G udot - b on enabled rows)', norm(model['CON']), sc_con))
     o = c['out']
-    if norm(o['UDOTERR']) > TOL * sc_con: bad.append(('getUDotErr', norm(o['UDOTERR']), sc_con))
-    if norm(o['RESID']) > TOL * sc_dyn: bad.append(('calcResidualForce', norm(o['RESID']), sc_dyn))
+    if c['cond'] <= COND_MAX:
+        tolr = TOL_FLOOR + C_COND * EPS * c['cond']
+        absmv = lambda A, x: [sum(abs(a * b) for a, b in zip(row, x)) for row in A]
+        tc = 1.0 + norm([g for g, m in zip(absmv(c['G'], c['UDOT']), c['mask']) if m]) + norm([b for b, m in zip(c['B'], c['mask']) if m])
+        Gt = [[c['G'][k][i] for k in range(c['mAll'])] for i in range(n)]
+        td = 1.0 + norm(absmv(c['M'], c['UDOT'])) + norm(absmv(Gt, lam)) + norm(c['RHS'])
+        if norm(model['DYN']) > tolr * td: bad.append(('newton-residual(model: M udot + G^T lambda - rhs)', norm(model['DYN']), td))
+        if norm(model['CON']) > tolr * tc: bad.append(('constraint-residual(model: G udot - b on enabled rows)', norm(model['CON']), tc))
+        if norm(o['UDOTERR']) > tolr * tc: bad.append(('getUDotErr', norm(o['UDOTERR']), tc))
+        if norm(o['RESID']) > tolr * td: bad.append(('calcResidualForce', norm(o['RESID']), td))
     # the implementation's O(n) G^T lambda against the explicit matrix
     if norm([a - b for a, b in zip(o['GTL'], Gtl)]) > TOL * sc_dyn: bad.append(('multiplyByGTranspose(lambda) vs calcG^T lambda', norm([a - b for a, b in zip(o['GTL'], Gtl)]), sc_dyn))
     # power: model value must equal the reported one; zero for workless sets when uerr = 0
@@ -86,9 +98,9 @@ def judge(c, model):
     # disabled constraints: identical to the system without them
     if 'REDUCED_UDOT' in o:
         d = norm([a - b for a, b in zip(o['REDUCED_UDOT'], c['UDOT'])]); sc = 1.0 + norm(c['UDOT'])
-        if d > TOL * sc: bad.append(('disabled: udot differs from the system without the disabled constraints', d, sc))
+        if d > (TOL + C_COND * EPS * c['cond']) * sc: bad.append(('disabled: udot differs from the system without the disabled constraints', d, sc))
         d = norm([a - b for a, b in zip(o['REDUCED_GTL'], o['GTL'])])
-        if d > TOL * sc_dyn: bad.append(('disabled: G^T lambda differs from the system without the disabled constraints', d, sc_dyn))
+        if d > (TOL + C_COND * EPS * c['cond']) * sc_dyn: bad.append(('disabled: G^T lambda differs from the system without the disabled constraints', d, sc_dyn))
         if len(o['REDUCED_LAM']) != len(o['MASKED_LAM']): bad.append(('disabled: multiplier count differs', abs(len(o['REDUCED_LAM']) - len(o['MASKED_LAM'])), 1))
     return bad
 
@@ -182,10 +194,12 @@ def certificate(ctx, exes, ncases, seed_offset=0):
                    (f['hist'], f['default'], f['isDisabled'], want), {'replay_cmd': '%s %d %d' % (exe, ctx.seed + seed_offset, ncases), 'case': fc['id'], 'flag_line': f['line']})
     if len(models) != len(cases):
         ctx.broken.append(('ocaml:C08_drv', 'driver produced %d results for %d cases %s' % (len(models), len(cases), err[-300:]))); return
-    judged = 0; incons = 0; fails = []; hist = collections.Counter(); worst = collections.defaultdict(float); nred = 0; nmask = 0; va_findings = []; npc = 0
+    judged = 0; incons = 0; fails = []; hist = collections.Counter(); worst = collections.defaultdict(float); nred = 0; nmask = 0; va_findings = []; npc = 0; illcond = 0; condhist = collections.Counter(); maxcond = 0.0
     for c in cases:
         if c['consistency'] > CONSIST: incons += 1; continue
         judged += 1
+        if c['cond'] > COND_MAX: illcond += 1
+        condhist[min(12, int(math.log10(max(c['cond'], 1.0))))] += 1; maxcond = max(maxcond, c['cond'])
         if c['rank'] < c['mA']: nred += 1; hist['redundant'] += 1
         if 'REDUCED_UDOT' in c['out']: nmask += 1; hist['with-disabled'] += 1
         if c['onman']: hist['on-manifold'] += 1
@@ -201,6 +215,11 @@ def certificate(ctx, exes, ncases, seed_offset=0):
     e['cases_judged'] += judged; e['inconsistent_sets_not_judged'] += incons; e['skipped_by_generator'] += skipped; e['redundant_sets'] += nred; e['sets_with_disabled'] += nmask
     for k2, v in hist.items(): e['histogram'][k2] = e['histogram'].get(k2, 0) + v
     e['worst_model_residuals'] = dict(worst); e['tol_relative'] = TOL
+    e['residual_tolerance_rule'] = '(%.0e + %.0f*eps*cond(G M^-1 G^T)) * size of the terms; cond measured per case; cond > %.0e not judged' % (TOL_FLOOR, C_COND, COND_MAX)
+    e['ill_conditioned_residuals_not_judged'] = e.get('ill_conditioned_residuals_not_judged', 0) + illcond
+    e['max_cond'] = max(e.get('max_cond', 0.0), maxcond)
+    ch = e.setdefault('cond_histogram_log10', {})
+    for k2, v in condhist.items(): ch[str(k2)] = ch.get(str(k2), 0) + v
     if judged == 0 or incons + skipped > 0.25 * max(1, len(cases) + skipped):
         ctx.broken.append(('generator:C08', 'too few judged cases: judged %d, inconsistent %d, skipped %d' % (judged, incons, skipped)))
     e['per_constraint_blocks_checked'] = e.get('per_constraint_blocks_checked', 0) + npc
@@ -224,7 +243,7 @@ def run(ctx):
     ctx.cov['rule'] = ('certificate correspondence: random 5-body trees of >=3-dof mobilizers (quaternion or Euler) with 1-6 constraints of the 13 first-wave kinds (base constraints on distinct body pairs, '
                        '<= 7 rows; exact duplicates and Ball-at-the-Weld-points as redundant members), random enable masks, gravity + constant body forces/torques + mobility forces, random states '
                        '(every other case projected: qerr = uerr = 0); only sets whose enabled acceleration equations are consistent (least-squares residual <= 1e-9) are judged; '
-                       'non-trivial = redundant (rank-deficient G) or with disabled constraints; tolerance 1e-8 relative to the size of the terms')
+                       'non-trivial = redundant (rank-deficient G) or with disabled constraints; tolerance for the two residual blocks (1e-9 + 20*eps*cond(G M^-1 G^T)) * size of the terms with cond measured per case (cases with cond > 1e10 counted, residuals not judged); other predicates 1e-8 relative')
     ctx.assumptions += ['Pq is compared on the tangent space of the quaternion norm constraints only (calcPq leaves a directly constrained quaternion component unprojected, P*N^-1 projects it; both give the same Pq*qdot for qdot = N u)',
                         'PARTIAL: uniqueness theorem + certificate check; the pseudo-inverse\'s choice among equivalent lambda for redundant sets is not modelled (only udot and G^T lambda are determined; lambda is refuted to be unique)',
                         'theorems are over the reals; the certificate residuals are evaluated in binary64 with a relative tolerance',
